@@ -744,6 +744,16 @@ class RequestHandler:
                 "(should be lowercase)",
                 DeprecationWarning,
             )
+        # Serialize the cookie now: anything that cannot be sent as a header must raise
+        # here, where the application can handle it, and not in flush() after the
+        # response has been started.
+        try:
+            httputil.HTTPHeaders().add(
+                "Set-Cookie", self._convert_header_value(morsel.OutputString(None))
+            )
+        except (ValueError, httputil.HTTPInputError):
+            del self._new_cookie[name]
+            raise
 
     def clear_cookie(self, name: str, **kwargs: Any) -> None:
         """Deletes the cookie with the given name.
